@@ -1010,6 +1010,9 @@ def sweep(tier):
             plist = [{'pk': 'word', 't': t, 'v': (1, 0x80000000, 0xffffffff, 3, 0)[(k + mi) % 5]} for k, t in enumerate(ws)]
             if mach == 183:
                 plist.append({'pk': 'unk', 't': 0xc0000001, 'd': bytes(range(0x10, 0x20))})
+                # the numbers are processor-specific: what names an x86 word elsewhere is an unknown property here, of any size
+                plist += [{'pk': 'unk', 't': t, 'd': bytes(range(0x41, 0x41 + n))}
+                          for k, t in enumerate(X86_WORDS) for n in ((8, 12, 16, 24)[k % 4], (16, 24, 8, 12)[k % 4])]
             cases.append(_mk(cls, le, core, views[(ci + mi) % 3], [{'k': 'prop', 'props': plist}, {'k': 'prop', 'props': plist[::-1] + plist}],
                              machine=mach, lay={'gap4': mi % 2, 'at_end': mi % 2 == 0, 'tail': 0, 'p_vaddr': 0, 'p_memsz': 0, 'addr': 0x3000}))
         # core kinds, every machine of both uid-width sets (ELF32) / the 64-bit list (ELF64)
